@@ -104,7 +104,8 @@ def mnemonic_from_bytes(entropy, wordlist=WORDLIST):
     total_mnemonics = (total_bits + checksum_bits) // 11
     # no need to truncate checksum - we already know total_mnemonics
     checksum = bytearray(hashlib.sha256(entropy).digest())
-    entropy += checksum
+    # not `+=`: that would extend a bytearray passed by the caller
+    entropy = entropy + checksum
     mnemonic = []
     for i in range(0, total_mnemonics):
         idx = _extract_index(11, entropy, i)
